@@ -27,8 +27,9 @@ def main():
     # setup succeeds even if a generated file no longer builds: the check reports that as a tie
     bad = core.gate_sources([f for f in core._all_v_files()])
     if bad:
+        # reported, not fatal: every check runs the gate over its own transitive sources and
+        # reports a broken tie there
         print("gate: forbidden constructs:\n" + "\n".join(bad))
-        sys.exit(1)
     print("setup done (make exit %d)" % p.returncode)
 
 
